@@ -56,7 +56,7 @@ func (ds *defaultSpreaderPipeline) spread(ctx context.Context, w io.Writer, root
 	return errc
 }
 
-func (ds *defaultSpreaderPipeline) worker(ctx context.Context, wg *sync.WaitGroup, roots <-chan *Node, _ chan<- error) {
+func (ds *defaultSpreaderPipeline) worker(ctx context.Context, wg *sync.WaitGroup, roots <-chan *Node, errc chan<- error) {
 	defer wg.Done()
 	for {
 		select {
@@ -68,8 +68,12 @@ func (ds *defaultSpreaderPipeline) worker(ctx context.Context, wg *sync.WaitGrou
 			}
 
 			ds.Lock()
-			ds.spreadBranch(root)
+			err := ds.spreadBranch(root)
 			ds.Unlock()
+			if err != nil {
+				errc <- err
+				return
+			}
 		}
 	}
 }
